@@ -80,7 +80,7 @@ def o12_1(tier):
     import stepup.core.scheduler as sch
 
     res = ObResult()
-    K, D = (4, 1) if tier == "quick" else (5, 2)
+    K, D = (4, 1) if tier == "quick" else (4, 2)
     res.bounds = f"{K} node slots, {D} dependency edges, 2 resource requirements, 2 available resources (units 0..3), resource names from {{p, q}}"
     res.encoded += [enc(sch.Scheduler.pop_next_job), enc(sch.Scheduler._get_next_step), enc(sch.Scheduler._derive_job), enc(sch.SELECT_NEXT_STEP, "scheduler.SELECT_NEXT_STEP"), enc(sch.RESOURCE_UNAVAILABLE, "scheduler.RESOURCE_UNAVAILABLE")]
     _, StepState, Need = enums()
@@ -140,7 +140,7 @@ def o12_2(tier):
     import stepup.core.step as stp
 
     res = ObResult()
-    K, D = (4, 1) if tier == "quick" else (5, 2)
+    K, D = (4, 1) if tier == "quick" else (4, 2)
     res.bounds = f"{K} node slots, {D} dependency edges; a RUNNING step calls hold(); then one pop_next_job()"
     res.encoded += [enc(stp.Step.hold), enc(stp.Step.release)]
     _, StepState, Need = enums()
